@@ -98,7 +98,8 @@ def run(chk):
         chk.sample({k: r[k] for k in ("pep_in", "old_in", "sem_out", "pep_back", "sem_in", "pep_out", "sem_back", "cls")})
     chk.exhaustive = True
     chk.assumptions += [
-        "release tuples have exactly three components (semver's shape); 2- or 4-component PEP 440 releases, "
+        "release tuples have three components (semver's shape) in the round trips; the classification is also tried with "
+        "the 1- and 2-component PEP 440 spellings of the same versions (trailing zeros dropped); 4-component releases, "
         "post/dev/local segments and epochs other than 0 are outside the grid",
         "semver inputs are canonical (labels a/b/rc, no leading zeros); PEP 440 inputs use several equivalent spellings "
         "whose equivalence to the normalized form is taken from `packaging`",
